@@ -253,7 +253,7 @@ func runC12Fetch(c *Ctx) {
 	os.Setenv("PPROF_TMPDIR", tmp)
 	os.Setenv("PPROF_BINARY_PATH", filepath.Join(tmp, "no-binaries"))
 	defer os.RemoveAll(tmp)
-	for k := 0; k < c.Budget(240, 2500); k++ {
+	for k := 0; k < c.Budget(200, 2500); k++ {
 		p := c12FetchProfile(r, false)
 		src := PickS(r, c12FetchSources)
 		mode := PickS(r, c12FetchModes)
